@@ -122,7 +122,10 @@ def _recover_hung(args):
 def zv(variant, args, timeout=1800):
     build(variant)
     t0 = time.time()
-    p = subprocess.run([zv_path(variant)] + [str(a) for a in args], cwd=ROOT, env=base_env(),
+    exe = zv_path(variant)
+    if variant == "prod" and os.environ.get("VERIF_ZV_BIN"):
+        exe = os.environ["VERIF_ZV_BIN"]     # bin/coverage: a coverage-instrumented build of the same sources
+    p = subprocess.run([exe] + [str(a) for a in args], cwd=ROOT, env=base_env(),
                        stdout=subprocess.PIPE, stderr=subprocess.STDOUT, text=True, timeout=timeout)
     if p.returncode == 3 and _recover_hung(args):
         return p.stdout
